@@ -22,6 +22,23 @@ RESOURCE_DIR = "/usr/lib/llvm-14/lib/clang/14.0.6"
 JOBS = int(os.environ.get("VERIF_JOBS", "16"))
 
 
+def _load_overlay():
+    """VERIF_OVERLAY=<json file> maps repository paths to replacement files (used by the self-test to
+    analyse mutated sources without touching /repo: the replacement is fed to the front end as a
+    virtual file at the original path)."""
+    p = os.environ.get("VERIF_OVERLAY")
+    if not p:
+        return {}
+    return {os.path.normpath(k): v for k, v in json.load(open(p)).items()}
+
+
+OVERLAY = _load_overlay()
+
+
+def real_path(path):
+    return OVERLAY.get(os.path.normpath(path), path)
+
+
 class AnalysisBroken(Exception):
     """The analysis cannot decide (vanished anchor, front-end failure, unknown idiom)."""
 
@@ -38,6 +55,7 @@ _hash_memo = {}
 
 
 def file_sig(path):
+    path = real_path(path)
     try:
         st = os.stat(path)
     except OSError:
@@ -173,10 +191,15 @@ def pipe_maps(unit):
     """--map arguments for the main file if it contains range-adaptor pipes."""
     maps = []
     try:
-        text = open(unit).read()
+        text = open(real_path(unit)).read()
     except OSError:
         return maps
     new, n = rewrite_pipes(text)
+    for k, v in OVERLAY.items():
+        if k != os.path.normpath(unit):
+            maps.append("%s=%s" % (k, v))
+    if not n and os.path.normpath(unit) in OVERLAY:
+        maps.append("%s=%s" % (unit, OVERLAY[os.path.normpath(unit)]))
     if n:
         d = os.path.join(CACHE, "shadow_src")
         os.makedirs(d, exist_ok=True)
@@ -194,7 +217,8 @@ def _tool_sig():
 
 
 def _cache_path(unit, flags, roots):
-    h = hashlib.sha1(("\0".join([unit] + flags + roots) + _tool_sig()).encode()).hexdigest()[:20]
+    ov = "".join("%s=%s;" % (k, file_sig(k)) for k in sorted(OVERLAY))
+    h = hashlib.sha1(("\0".join([unit] + flags + roots) + _tool_sig() + ov).encode()).hexdigest()[:20]
     base = os.path.basename(unit)
     return os.path.join(CACHE, "facts", "%s.%s.json" % (base, h))
 
